@@ -10,6 +10,14 @@ CLAIMED = {
   "SSA/CFG must-pass-through with value-sensitive path search; call-graph cone (VTA) vs jump-table row flags; who-may-write on a struct field",
   "Structural necessary conditions of the property decided for every path / table row / writer of the current source: every EVM frame entry reverts to its snapshot on every non-nil-error return; every jump-table row whose handler can reach a raw state setter is write-protected; the static flag is sticky; Prepare resets every per-transaction scratch field and is called before each transaction. Exhaustive over the finite syntactic space (6 frame entries, ~150 rows, all stores to readOnly); the behavioural remainder (state equality as a value) is not decided.",
   "Trusted: go/types + go/ssa lowering, VTA call graph over-approximates callees; the raw-setter list (account package) is the bottom of all observable state mutation; access-list and refund counter excluded from 'observable state'. Recorded defects F12, F13a-d, F14 are printed as KNOWN-FINDING."),
+ "C10": ("3/C10",
+  "abstract interpretation of every jump-table handler (symbolic operand stack + constant propagation) compared with the row declarations and an embedded Yellow-Paper (delta,alpha) table; operator/operand binding of word operations; guard-edge checks on jumps",
+  "For every row of every jump table (base set and proposal patches; ~156 rows) the handler's stack effect on each success exit equals the row's declaration and the Yellow-Paper (δ,α); for the 25 straight-line word operations plus DUPn/SWAPn/PUSHn the uint256 method, the operand slots, the result slot and the guard polarity equal a reference table; JUMP/JUMPI write pc only after validJumpdest accepted. Exhaustive over rows and handler paths. The 256-bit arithmetic itself, KECCAK, memory copies and the jump-dest bitmap are not decided.",
+  "Trusted: holiman/uint256 method semantics; the (δ,α) and operand-order reference transcribed in rules/vmrows.go and rules/c10.go; go/ssa lowering."),
+ "C11": ("3/C11",
+  "abstract interpretation of handlers (stack bounds, memory accesses as entry-slot operands) vs memorySize/dynamicGas functions; who-may-write Contract.Gas; dominance of depth/gas/stack guards; input-bounds lint for precompiles; panic triage over the call-graph cone",
+  "Structural necessary conditions of totality/resource bounds, exhaustive over ~156 rows, all writers of Contract.Gas, six frame entries, 40 precompile functions, all overflow-flag producers and every explicit panic in the interpreter's cone: no handler under/overflows the validated stack; every memory access lies in a region the row's memorySize accounts for and is charged; gas only decreases except for gas returned by a nested frame; depth guards, charge-before-run and validate-before-execute orderings hold. Termination as such and exact gas values are not decided.",
+  "Trusted: go/ssa, VTA call graph; memory is grown only by Run. Recorded defect F11 (AUTH row without memorySize → host panic) is printed as KNOWN-FINDING."),
 }
 
 NOT_YET = {}
